@@ -141,25 +141,32 @@ PickAtten(sd) ==
 
 \* C11: bindings on which a guard fails with an error coexist with bindings that match
 XF(c) == Atom("x", <<c>>)
-GuardMenu == {Guard("nz", X, "-"), Guard("lt", X, "i:3"), Guard("neq", X, "i:0")}
-FactSets == (SUBSET {XF("i:0"), XF("i:1"), XF("i:5")}) \ {{}}
+GuardMenu == {Guard("nz", X, "-"), Guard("lt", X, "i:3"), Guard("neq", X, "i:0"), Guard("ov", X, "-")}
+FactSets == (SUBSET {XF("i:0"), XF("i:1"), XF("i:5"), XF("i:7")}) \ {{}}
 
 PickGuards(sd) ==
     \E fs \in FactSets, co \in {0, AZ}, k \in Kinds, g \in GuardMenu, two \in BOOLEAN,
-       pg \in {0, 1, 2}, rl \in BOOLEAN :
+       pg \in {0, 1, 2}, rl \in {0, 1, 2}, smallFacts \in BOOLEAN :
         LET alt1 == QG(<<XF(X)>>, g, {})
             alts == IF two THEN <<alt1, QG(<<XF(X)>>, Guard("nz", X, "-"), {})>> ELSE <<alt1>>
             chk  == Chk(k, alts)
             pol  == CASE pg = 0 -> AllowTrue
                       [] pg = 1 -> Pol("allow", <<QG(<<XF(X)>>, Guard("nz", X, "-"), {})>>)
-                      [] pg = 2 -> Pol("deny", <<QG(<<XF(X)>>, Guard("lt", X, "i:3"), {})>>)
-            rules == IF rl THEN <<[head |-> D(X), body |-> <<XF(X)>>, guards |-> <<Guard("nz", X, "-")>>, scope |-> {}]>> ELSE <<>>
-        IN /\ prog' = [blocks |-> <<[ext |-> "none", scope |-> {}, facts |-> fs, rules |-> rules,
-                                      checks |-> IF co = 0 THEN <<chk>> ELSE <<>>]>>,
+                      [] pg = 2 -> Pol("deny", <<QG(<<XF(X)>>, Guard("ov", X, "-"), {})>>)
+            \* rl = 1: an authority rule whose guard divides by zero; rl = 2: in addition a rule of a
+            \* second block (another trusted-origin set, hence another bucket of the rule store) that overflows
+            r0 == IF rl >= 1 THEN <<[head |-> D(X), body |-> <<XF(X)>>, guards |-> <<Guard("nz", X, "-")>>, scope |-> {}]>> ELSE <<>>
+            b1 == IF rl = 2 THEN <<[ext |-> "none", scope |-> {}, facts |-> {F("b1")},
+                                    rules |-> <<[head |-> Atom("e", <<X>>), body |-> <<XF(X)>>, guards |-> <<Guard("ov", X, "-")>>, scope |-> {}]>>,
+                                    checks |-> <<>>]>> ELSE <<>>
+        IN /\ smallFacts => rl >= 1          \* a tiny fact budget only together with an erroring rule
+           /\ prog' = [blocks |-> <<[ext |-> "none", scope |-> {}, facts |-> fs, rules |-> r0,
+                                      checks |-> IF co = 0 THEN <<chk>> ELSE <<>>]>> \o b1,
                         authz |-> [scope |-> {}, facts |-> {}, rules |-> <<>>,
                                    checks |-> IF co = AZ THEN <<chk>> ELSE <<>>,
                                    policies |-> <<pol, Pol("deny", <<Q(<<>>, {})>>)>>]]
-           /\ extb' = NoBlock
+           /\ extb' = [NoBlock EXCEPT !.ext = IF smallFacts THEN "small-facts" ELSE "none"]
+           /\ smallFacts => RunErrors(prog')     \* the first pass fails on a guard before any budget test
 
 NoProg == [blocks |-> <<MkBlock(0, "none", {}, <<>>, <<>>)>>, authz |-> MkAuthz({}, <<>>, <<>>, <<AllowTrue>>)]
 
@@ -217,7 +224,7 @@ DeterministicAll == (Ready /\ Universe = "guards") => Deterministic(prog)
 
 ExportOutcomes ==
     (ExportOn /\ Ready /\ Universe = "guards") =>
-        PrintT(<<"OUTC", ToJson([prog |-> prog, outcomes |-> AuthOutcomes(prog),
+        PrintT(<<"OUTC", ToJson([prog |-> prog, outcomes |-> AuthOutcomes(prog), small_facts |-> extb.ext = "small-facts",
                                  res |-> ResultOf(prog)])>>)
 
 Export ==
@@ -235,5 +242,5 @@ Scopes3 == {{}, {"previous"}, {"E1"}}
 Scopes4k == {{}, {"previous"}, {"E1"}, {"E2"}}
 VarsX == {"$x", "$y"}
 NoInts == [i \in {} |-> 0]
-SmallInts == [i \in {"i:0", "i:1", "i:3", "i:5"} |-> CASE i = "i:0" -> 0 [] i = "i:1" -> 1 [] i = "i:3" -> 3 [] i = "i:5" -> 5]
+SmallInts == [i \in {"i:0", "i:1", "i:3", "i:5", "i:7"} |-> CASE i = "i:0" -> 0 [] i = "i:1" -> 1 [] i = "i:3" -> 3 [] i = "i:5" -> 5 [] i = "i:7" -> 7]
 =============================================================================
